@@ -12,27 +12,9 @@ package interp
 
 import (
 	"golang.org/x/tools/go/ssa"
-
-	"verif/engine/internal/term"
 )
 
-const c04UnixToInternal = (1969*365 + 1969/4 - 1969/100 + 1969/400) * 86400
 
 func init() {
-	reg("time.Now", func(in *Interp, fn *ssa.Function, args []Value) Value {
-		if in.inInit > 0 {
-			// package initialisers (timex.initTime, ...) get a fixed instant: nothing under test depends on it,
-			// and calendar arithmetic on a symbolic instant would only burden every path condition
-			return StructV{[]Value{term.BVC(64, 0), term.BVC(64, 1257894000+c04UnixToInternal), Ptr{}}}
-		}
-		now, ok := in.sideTab["c04clock.now"].(*term.Term)
-		if !ok {
-			now = in.Eng.Fresh("time.Now.unix", term.BV(64))
-			in.Eng.addPC(term.SLe(term.BVC(64, 0), now))
-			in.Eng.addPC(term.SLt(now, term.BVC(64, 1<<40)))
-			in.sideTab["c04clock.now"] = now
-		}
-		return StructV{[]Value{term.BVC(64, 0), term.Add(now, term.BVC(64, c04UnixToInternal)), Ptr{}}}
-	})
 	reg("internal/stringslite.Clone", func(in *Interp, fn *ssa.Function, args []Value) Value { return args[0] })
 }
